@@ -14,7 +14,16 @@
 #include <cmath>
 #include "mp/sol.h"
 #include "mp/suffix.h"
+#include "mp/problem.h"
+#include "mp/solver-io.h"
 #include "sol_rec.h"
+
+#ifdef VERIF_COVERAGE
+extern "C" void __gcov_dump(void);
+#define COV_DUMP() __gcov_dump()
+#else
+#define COV_DUMP() ((void)0)
+#endif
 
 using namespace verif;
 
@@ -57,7 +66,19 @@ struct SolObj {
   int status() const { return status_; }
   int num_vars() const { return nvars; }
   int num_algebraic_cons() const { return ncons; }
-  const mp::SuffixSet* suffixes(mp::suf::Kind k) const { return sets[(int)k].get(); }
+  // a null map (what SolutionAdapter returns without a builder) when the kind has no suffix
+  const mp::SuffixSet* suffixes(mp::suf::Kind k) const { return sets[(int)k]->begin() == sets[(int)k]->end() ? nullptr : sets[(int)k].get(); }
+};
+
+// the solver side of mp::SolutionWriterImpl (include/mp/solver-io.h): what every driver uses to write <stub>.sol and,
+// with the solution-stub option, the intermediate <solution_stub>N.sol files
+struct StubSolver {
+  std::string sstub;
+  int objno = 0;
+  const char* solution_stub() const { return sstub.c_str(); }
+  int objno_used() const { return objno; }
+  bool multi = false;
+  bool need_multiple_solutions() const { return multi; }
 };
 
 static void put(const std::string& s) {
@@ -71,10 +92,11 @@ static void put(const std::string& s) {
 
 static std::string runCase(const std::string& line, const std::string& path) {
   std::istringstream ss(line);
-  std::string tag, id, msg, opts, duals, primals, sufs;
+  std::string tag, id, msg, opts, duals, primals, sufs, via = "direct";
   long fx, nvd, ncd, ncons, nvars, objno, status;
   if (!(ss >> tag >> id >> fx >> nvd >> ncd >> msg >> opts >> ncons >> nvars >> duals >> primals >> objno >> status >> sufs) || tag != "sol")
     return "bad-op";
+  ss >> via;      // direct: mp::WriteSolFile on an adapter object;  final / stub: through mp::SolutionWriterImpl
   SolObj s;
   if (!unhex(msg, s.msg)) return "bad-op";
   for (auto& o : split(opts, ',')) s.opts.push_back(atol(o.c_str()));
@@ -98,10 +120,69 @@ static std::string runCase(const std::string& line, const std::string& path) {
       for (size_t i = 0; i < vals.size(); i++) su.set_value((int)i, atoi(vals[i].c_str()));
     }
   }
-  mp::WriteSolFile(path, s);
+  std::string written = path;
+  if (via == "direct") {
+    mp::WriteSolFile(path, s);
+  } else {
+    // real mp::Problem as the ProblemBuilder (sizes and suffix sets come from it), heap arrays of exactly the problem's sizes
+    mp::Problem p;
+    p.AddVars((int)nvars, mp::var::CONTINUOUS);
+    p.AddAlgebraicCons((int)ncons);
+    bool multi = via.rfind("multi", 0) == 0;          // multi:<k>:<nobj>  k intermediate solutions, then the final one with need_multiple_solutions()
+    int nInter = 0, nObj = 0;
+    if (multi) { sscanf(via.c_str(), "multi:%d:%d", &nInter, &nObj); }
+    for (int i = 0; i < nObj; i++) p.AddObj(mp::obj::MIN);
+    for (auto& sf : split(sufs, ';')) {
+      auto f = split(sf, ':');
+      int kind = atoi(f[0].c_str());
+      std::string name, table;
+      unhex(f[1], name); unhex(f[2], table);
+      if (multi && (name == "nsol" || name == "npool")) continue;      // added by the library itself (HandleSolution)
+      auto vals = split(f[3], ',');
+      mp::SuffixSet& set = p.suffixes((mp::suf::Kind)(kind & 3));
+      if (kind & mp::suf::FLOAT) {
+        auto su = set.Add<double>(name, kind, (int)vals.size(), table);
+        for (size_t i = 0; i < vals.size(); i++) su.set_value((int)i, realOf(vals[i]));
+      } else {
+        auto su = set.Add<int>(name, kind, (int)vals.size(), table);
+        for (size_t i = 0; i < vals.size(); i++) su.set_value((int)i, atoi(vals[i].c_str()));
+      }
+    }
+    std::unique_ptr<double[]> x(s.primals.empty() ? nullptr : new double[s.primals.size()]);
+    std::unique_ptr<double[]> y(s.duals.empty() ? nullptr : new double[s.duals.size()]);
+    for (size_t i = 0; i < s.primals.size(); i++) x[i] = s.primals[i];
+    for (size_t i = 0; i < s.duals.size(); i++) y[i] = s.duals[i];
+    if (!s.primals.empty() && (long)s.primals.size() != nvars) return "bad-op";
+    if (!s.duals.empty() && (long)s.duals.size() != ncons) return "bad-op";
+    StubSolver solver;
+    solver.objno = (int)objno;
+    std::string base = path.substr(0, path.size() - 4);     // strip ".sol"
+    solver.sstub = (via == "stub" || multi) ? base + "_inter" : "";
+    solver.multi = multi;
+    mp::SolutionWriterImpl<StubSolver, mp::Problem> w(base, solver, p, mp::ArrayRef<long>(s.opts.data(), s.opts.size()));
+    if (via == "stub") {
+      w.HandleFeasibleSolution((int)status, s.msg.c_str(), x.get(), y.get(), 0.0);
+      written = base + "_inter1.sol";
+    } else if (multi) {
+      for (int i = 0; i < nInter; i++) {
+        w.HandleFeasibleSolution(s.msg.c_str(), x.get(), y.get(), 0.0);     // the deprecated overload without a status
+        std::remove((base + "_inter" + std::to_string(i + 1) + ".sol").c_str());
+      }
+      w.HandleSolution((int)status, s.msg.c_str(), x.get(), y.get(), 0.0);
+    } else if (via == "ovr-rel" || via == "ovr-abs") {
+      // OverrideSolutionFileName: relative names are resolved against the directory of the stub
+      std::string dir = base.substr(0, base.find_last_of('/') + 1);
+      w.OverrideSolutionFileName(via == "ovr-abs" ? dir + "ovr_abs.sol" : std::string("ovr_rel.sol"));
+      w.HandleSolution((int)status, s.msg.c_str(), x.get(), y.get(), 0.0);
+      written = dir + (via == "ovr-abs" ? "ovr_abs.sol" : "ovr_rel.sol");
+    } else {
+      w.HandleFeasibleSolution((int)status, s.msg.c_str(), x.get(), y.get(), 0.0);   // no solution stub: must not write anything
+      w.HandleSolution((int)status, s.msg.c_str(), x.get(), y.get(), 0.0);
+    }
+  }
   std::string bytes;
   {
-    std::ifstream f(path, std::ios::binary);
+    std::ifstream f(written, std::ios::binary);
     std::stringstream b;
     b << f.rdbuf();
     bytes = b.str();
@@ -109,7 +190,8 @@ static std::string runCase(const std::string& line, const std::string& path) {
   RecHandler h;
   h.hdr.num_vars = (int)nvd;
   h.hdr.num_algebraic_cons = (int)ncd;
-  std::string r = readWith(path, h);
+  std::string r = readWith(written, h);
+  std::remove(written.c_str());
   return id + " bytes=" + hexs(bytes.data(), bytes.size()) + " || " + r;
 }
 
@@ -178,6 +260,7 @@ int main(int argc, char** argv) {
       std::string r;
       try { r = runCase(line, path); } catch (const std::exception& e) { r = id + " EXC " + e.what(); }
       put(r + "\n");
+      COV_DUMP();
       _exit(0);
     }
     close(ep[1]);
